@@ -63,6 +63,8 @@ THEOREMS = [
     "C17_dc_inputs_witness",
     "C17_preview_per_class",
     "C17_preview_inherited_witness",
+    "C17_factory_per_instance",
+    "C17_factory_cached_witness",
 ]
 RULE = (
     "generated definitions written to REAL source files in the case's cwd and imported from there (inspect/ast "
@@ -93,7 +95,12 @@ RULE = (
     "next to docstrings and comments mentioning return, lambdas, helper functions without and with return statements "
     "(one value, a tuple, two returns), an async helper, a class with a method, a decorated helper, a helper two "
     "compound statements deep, a non-ASCII literal on the line of the return; PARAMETER KINDS: positional-only prefix, "
-    "keyword-only suffix, `*var` / `**var` under reserved and unreserved names; SUBCLASS CHAINS: hand-written "
+    "keyword-only suffix, `*var` / `**var` under reserved and unreserved names; SPELLINGS: returned values written as "
+    "quoted subscripts (either quote), calls without blanks / with blanks inside the parentheses / with hex, underscore, "
+    "exponent literals, arithmetic without blanks, a trailing comma -- the expected label is the SOURCE text; ANNOTATED: "
+    "typing.Annotated directly, in a union, in Optional, nested in a generic and in itself, also as string annotations; "
+    "INSTANCE HISTORIES: several instances of one dataclass-node class, every factory-made mutable object mutated in "
+    "place after the instance was looked at; SUBCLASS CHAINS: hand-written "
     "`class C(P)` over one or two concrete hand-written node classes, node_function overridden, the parent previewed / "
     "instantiated / run before the child is defined, after it, after the child was looked at, or never; DATACLASS "
     "HIERARCHIES: decorated and undecorated ancestors (1-2), a decorated or dataclass-like leaf that adds members, "
@@ -777,6 +784,14 @@ def gen_xf_case(rng, tier, idx, kind=None, n=None):
             if hp is not None:
                 params = hp
         case["runs"] = [gen_run(rng, ctr, params) for _ in range(nruns)]
+        if "prior_fields" not in case and rng.random() < 0.5 and any(
+                k == "f" and not is_pool(d) for c in [case, *(case.get("chain") or [])] for _x, _a, k, d in c["fields"]):
+            # a HISTORY of instances of ONE node class: after every instance has been looked at, whatever mutable object
+            # a default factory made for it is mutated (through the node's input; the built dataclass holds the same
+            # object) -- the next instance must start from the factory's own product again
+            case["mutate"] = True
+            if case["api"] == "helper":
+                case["api"] = "class"
         if any(o in ("cv", "i0") for c in [case, *(case.get("chain") or [])] for o in (c.get("opts") or {}).values()):
             # members that are no init parameters: values are given by keyword only (a tree that makes inputs of such
             # members numbers the positions differently, and a value landing on one of them is a matter of type
@@ -962,6 +977,21 @@ def corpus():
                      {"deco": False, "kw_only": False, "opts": {}, "fields": [["lost", "int", "v", "i7"]]}],
            "fields": [["z", "int", "v", "i1"], ["s", "int", "v", "i2"]], "opts": {"s": "iv"},
            "runs": [{"inst": [["sCu"], {}], "call": [[], {"s": "i9"}]}]}
+    # a history of instances of one dataclass-node class whose factory-made list is mutated in between
+    yield {"kind": "dc", "id": "c-dc9", "n": 2, "api": "class", "already": True, "how": "decorator", "mutate": True,
+           "fields": [["x", "int", "v", "i1"], ["tags", "list", "f", "list(i1,i2)"]],
+           "runs": [{"inst": [[], {}], "call": [[], {}]}, {"inst": [[], {}], "call": [["i5"], {}], "again": True},
+                    {"inst": [[], {"x": "i7"}], "call": [[], {}]}]}
+    # return values in spellings that are not the canonical rendering of their ast; Annotated hints at every level
+    yield {"kind": "fn", "id": "c-f7", "params": [{"name": "a", "ann": "typing.Annotated[int, 'angstrom']", "default": None},
+                                                   {"name": "b", "ann": "list[typing.Annotated[int, 'site']]", "default": None},
+                                                   {"name": "c", "ann": "typing.Annotated[int, 'eV'] | None", "default": "None"}],
+           "rets": [["t0", 'd0["k"]', "d0 = {'k': _T(0, a, b, c)}"], ["t1", "_T(0x1,a,b,c)", None],
+                    ["t2", "_T( 2 , a , b , c )", None], ["p0", "a", None]],
+           "single_tuple": False, "ret_style": "values", "declared": None, "validate": True,
+           "ret_ann": "tuple[_T, _T, _T, typing.Annotated[int, 'angstrom']]", "future": True, "api": "dec",
+           "layout": "line", "wrap": ["if"], "extras": [], "nonascii": False,
+           "runs": [{"inst": [["i1"], {}], "call": [[], {"b": "list(i2)"}]}]}
     # the sentinel idiom, a shared mutable default, and sizes past one digit (item_10 is not item_2's neighbour)
     yield {"kind": "fn", "id": "c-f2", "params": [{"name": "value", "ann": None, "default": None},
                                                    {"name": "fallback", "ann": None, "default": "@0.object",
@@ -1803,6 +1833,23 @@ def _run(case, h, modname, variant):
                 + "] outs=[" + ",".join(f"{k}:{'*' if kind == 'dc' else hint_tok(c.type_hint)}={tok(c.value)}"
                                         for k, c in node.outputs.items()) + "]")
 
+    def mutate(node):
+        """somebody changes, in place, every mutable object a default factory made for this instance"""
+        if not case.get("mutate"):
+            return
+        for c in [case, *(case.get("chain") or [])]:
+            for x, _a, k, d in c["fields"]:
+                if k != "f" or is_pool(d) or x not in node.inputs.labels:
+                    continue
+                v = node.inputs[x].value
+                if isinstance(v, list):
+                    v.append("polluted")
+                elif isinstance(v, dict):
+                    v["polluted"] = True
+                elif isinstance(v, set):
+                    v.add("polluted")
+        stats["mutated"] = stats.get("mutated", 0) + 1
+
     # ---- runs -----------------------------------------------------------------------------------------
     for run in case["runs"]:
         a1, k1 = _args(run["inst"])
@@ -1873,6 +1920,7 @@ def _run(case, h, modname, variant):
             else:
                 obs.append(f"call {c} ins={_panel(node.inputs)}")
             stats[f"call:{c}"] = stats.get(f"call:{c}", 0) + 1
+            mutate(node)
             continue
         if run.get("again"):
             try:
@@ -1884,6 +1932,7 @@ def _run(case, h, modname, variant):
                 rf["again"] = f"EXC:{type(e).__name__}"
                 obs.append(f"again {type(e).__name__}")
             stats["again"] = stats.get("again", 0) + 1
+        mutate(node)
     return {"obs": obs, "variant": variant, "facts": facts, "stats": stats}
 
 
